@@ -64,7 +64,16 @@ func c16(args []string) error {
 	// ---- stateless schemes: n in 1..64, views 0..4n, and boundary views
 	for n := 1; n <= 64; n++ {
 		a := leaderrotation.NewRoundRobin(mkCfg(1, n))
-		b := leaderrotation.NewRoundRobin(mkCfg(n, n)) // another replica's instance
+		// another replica's instance, which was already asked for leaders while its configuration was still being installed
+		// (modules are built first, replicas are added on connection)
+		bcfg := core.NewRuntimeConfig(hotstuff.ID(n), pk)
+		b := leaderrotation.NewRoundRobin(bcfg)
+		for i := 1; i <= n; i++ {
+			if i > 1 || n == 1 {
+				getLeader(b, hotstuff.View(rng.Intn(50)))
+			}
+			bcfg.AddReplica(&hotstuff.ReplicaInfo{ID: hotstuff.ID(i)})
+		}
 		starts := []uint64{0, 1<<16 - 3, 1<<31 - 5, 1<<32 - 7, 1<<53 - 2, 1<<63 - 9, ^uint64(0) - uint64(4*n), uint64(rng.Int63())}
 		for _, v0 := range starts {
 			var l1, l2 []int
